@@ -154,7 +154,8 @@ class Scheduler(BaseScheduler[Job, Callable[..., Coroutine[Any, Any, None]]]):
             # raised, when `task.cancel()` in `delete_job` was run
             pass  # pragma: no cover
         else:
-            self.delete_job(job)
+            # the job's own coroutine may already have deleted it (or cleared the scheduler)
+            self._jobs.pop(job, None)
 
     def delete_job(self, job: Job) -> None:
         """
